@@ -23,9 +23,14 @@ var checks = map[string]func(tier string) int{
 	"C13": props.CheckC13,
 	"C14": props.CheckC14,
 	"C15": props.CheckC15,
+	"C16": props.CheckC16,
 }
 
 func main() {
+	if len(os.Args) >= 3 && os.Args[1] == "helper" && os.Args[2] == "export-default" {
+		props.HelperExportDefault()
+		return
+	}
 	if len(os.Args) < 3 || os.Args[1] != "check" {
 		fmt.Fprintln(os.Stderr, "usage: tibcmc check <Cnn> [quick|thorough]")
 		os.Exit(2)
